@@ -198,14 +198,15 @@ def c15(run):
     for n in ([255, 256, 300] if t else [256]):
         rc, out, err = run_gen("n_queens_gen", ["-n", str(n)], timeout=300)
         cells = [int(x) for x in re.findall(r"v_(\d+)", out.decode())]
-        lists = re.findall(r"\[([^\]]*)\] (<=|=) 1 &", out.decode())
+        # only what every correct encoding shares: the formula is over exactly v_0 .. v_(n*n-1); how rows, columns and
+        # diagonals are written (lists, their order, the trailing conjunct) is the generator's choice and only noted
+        lists = re.findall(r"\[([^\]]*)\]\s*(<=|=)\s*1\b", out.decode())
         rows = [l for l, c in lists if c == "="]
-        shape_ok = rc == 0 and cells and max(cells) == n * n - 1 and len(set(cells)) == n * n and len(rows) == 2 * n and \
-            all(len(set(l.strip(",").split(","))) == n for l in rows)
-        run.extra.setdefault("large_n_shape", {})["n=%d" % n] = bool(shape_ok)
+        shape_ok = rc == 0 and cells and max(cells) == n * n - 1 and len(set(cells)) == n * n
+        run.extra.setdefault("large_n_shape", {})["n=%d" % n] = {"variables_ok": bool(shape_ok), "exactly_one_lists": len(rows)}
         if not shape_ok:
-            run.violation("queens:shape:n=%d" % n, "n_queens_gen -n %d: exit %s, %d distinct variables (max index %s), %d '= 1' lists" % (
-                n, rc, len(set(cells)), max(cells) if cells else None, len(rows)), {"mode": "queens", "n": n})
+            run.violation("queens:shape:n=%d" % n, "n_queens_gen -n %d: exit %s, %d distinct variables (max index %s)" % (
+                n, rc, len(set(cells)), max(cells) if cells else None), {"mode": "queens", "n": n})
     run.evaluations = len(files)
     run.nontrivial = len([n for n in files if n >= 4])
     run.sample({"n": 4, "formula_head": open(files[4]).read()[:300] if 4 in files else ""})
